@@ -152,6 +152,10 @@ def blocMachine : Machine := { σ := Unit, name := "bloc", init := fun _ => some
 
 /-! #### tagclient cluster client -/
 def stepTag (_ : Unit) (kind : String) (args impl : List String) : Option (Unit × StepOut) :=
+  -- `op` records are requests sent one after the other through ONE cluster client object (the host list and
+  -- the hosts' behaviour may change between them); the client keeps no state, so each request is judged
+  -- against the host list current at that moment, exactly like a `one` record
+  let kind := if kind = "op" then "one" else kind
   match kind, args with
   | "one", [mode, method, ht, ot] => do
     if mode ≠ "do" ∧ mode ≠ "once" then none else
